@@ -188,6 +188,44 @@ def glue(ctx, L):
     ctx.count(len(reqs), 'glue_lines')
     return bad
 
+def pinned_tables(ctx, L):
+    """the live tables against the pinned copy of the published tables (spec/junior_tables_pinned.txt.gz): where an
+    entry differs, the real function is compared with the exact evaluation of the PINNED entry on its whole grid"""
+    import pin_junior as PJ
+    try:
+        P = PJ.load()
+    except Exception as e:
+        ctx.oblig('spec:pinned copy of the published tables readable', 'translator', False, repr(e)); return
+    PL = PJ.as_L(P, L)
+    live = PJ.snapshot(L)
+    def entry(S, u):
+        if u.sys == 'ty': return S['ty'].get(u.key[0], {}).get(u.key[1])
+        if u.sys == 'qk': return S['qk'].get(u.key[0], {}).get(u.key[1])
+        if u.sys == 'sh': return S['sh'].get(u.key[0])
+        if u.sys == 'bg': return S['bg'].get(''.join(u.key))
+    units = JC.units_tyrving(PL) + JC.units_qkids(PL) + JC.units_sportshall(PL) + JC.units_bulgarian(PL)
+    ndiff = 0; nbad = 0; ncalls = 0
+    for u in units:
+        if entry(live, u) == entry(P, u): continue
+        ndiff += 1
+        if ndiff > 200: continue
+        hands = u.sys == 'ty' and u.timed
+        for k in range(u.lo, u.hi + 1):
+            for name, arg, hand in JC.unit_forms(u, k):
+                if name not in ('str2', 'float') and k % 7: continue
+                want = JC.oracle(PL, u.sys, u.key, k, hand and hands)
+                if want is None: continue
+                im = JC.canon(JC.impl_call(L, u.sys, u.key, arg)); ncalls += 1
+                if im != want:
+                    nbad += 1
+                    if nbad <= 40:
+                        ctx.fail(JC.FN[u.sys], JC.fail_args(u.sys, u.key, arg), want, im,
+                                 note='published table (pinned copy): %s form, mark %s' % (name, JC.s2(k)), replay_py=JC.replay_py(u.sys, u.key, arg))
+    ctx.count(ncalls, 'pinned_table_calls')
+    ctx.stats['table_entries_differing_from_pinned_copy'] = ndiff
+    ctx.oblig('oracle:scores equal the exact evaluation of the pinned published tables wherever a live table entry differs from them', 'oracle', nbad == 0,
+              '' if nbad == 0 else '%d entries differ, %d marks score differently' % (ndiff, nbad))
+
 
 def run(ctx):
     ctx.rule = ('every (system, competition type / age group, gender, event, age) table x the 0.01 grid from 20 % below to 20 % above the '
@@ -218,6 +256,7 @@ def run(ctx):
     key_checks(ctx, L)
     table_order(ctx, L)
     row_reachability(ctx, L)
+    pinned_tables(ctx, L)
     nd = glue(ctx, L)
     units = JC.units_tyrving(L) + JC.units_qkids(L) + JC.units_sportshall(L) + JC.units_bulgarian(L)
     tasks = JC.split_tasks(units, ctx.quick(), ctx.rng, sampled=('ty',), stride=23, extra=97)
